@@ -10,7 +10,7 @@ use daggy::{Dag, NodeIndex, Walker, petgraph::algo};
 use serde::{Deserialize, Serialize};
 use std::cell::RefCell;
 use std::rc::Rc;
-use veryl_parser::resource_table::PathId;
+use veryl_parser::resource_table::{self, PathId, StrId};
 use veryl_parser::veryl_token::Token;
 
 #[derive(Clone, Debug, Serialize, Deserialize)]
@@ -634,6 +634,36 @@ pub fn add(cand: TypeDagCandidate) {
 /// to delimit one file's pass1 additions for fragment caching.
 pub fn candidates_len() -> usize {
     TYPE_DAG.with(|f| f.borrow().candidates.len())
+}
+
+/// Removes the pending candidates that belong to one file: declarations made
+/// in it and paths referenced from a declaration made in it (see
+/// `Analyzer::drop_file`). Must run before `symbol_table::drop`, which it
+/// consults for the owning file. Without this, candidates of a file's earlier
+/// text survive until the next `apply` and name symbols that no longer exist.
+pub fn drop_candidates(file_path: PathId, prj: Option<StrId>) {
+    let prj = prj.map(resource_table::canonical_str_id);
+    let dropped = |id: SymbolId| match symbol_table::get(id) {
+        Some(x) => {
+            x.token.source == file_path
+                && (prj.is_none()
+                    || x.namespace
+                        .paths
+                        .first()
+                        .map(|p| resource_table::canonical_str_id(*p))
+                        == prj)
+        }
+        None => true,
+    };
+    TYPE_DAG.with(|f| {
+        f.borrow_mut().candidates.retain(|x| match x {
+            TypeDagCandidate::Path { path, parent, .. } => match parent {
+                Some((id, _)) => !dropped(*id),
+                None => path.range.beg.source != file_path,
+            },
+            TypeDagCandidate::Symbol { id, .. } => !dropped(*id),
+        })
+    })
 }
 
 /// Exports the candidates added since the given watermark.
